@@ -8,7 +8,7 @@ from .. import engine, optics as op, refmodel as rm
 PID = 'C02'
 MOD = 'mc.props.c02'
 
-SUPPORTS = ['full', 'offcentre', 'block']
+SUPPORTS = ['full', 'offcentre', 'block', 'twoplanes']
 WLZ = [(op.WL, 1.0), (3 * 2.0 ** -22, 2.0)]
 OVERSAMPLES = [1, 2, 3]
 
@@ -86,14 +86,26 @@ def build_mask(spec, shape_out):
 def make_wavefront(cfg, seed):
     import lentil
     shape = tuple(cfg['pupil'])
-    amp, opd, mask = op.pupil_arrays(shape, cfg['support'], seed, tag=shape[0] * 10 + shape[1])
+    two = cfg['support'] == 'twoplanes'
+    amp, opd, mask = op.pupil_arrays(shape, 'offcentre' if two else cfg['support'], seed, tag=shape[0] * 10 + shape[1])
     wl, z = cfg['wl'], cfg['z']
     dx = cfg['dx'] if np.ndim(cfg['dx']) == 0 else tuple(cfg['dx'])
     if cfg['dir'] == 'p2i':
         w = lentil.Wavefront(wl) * lentil.Pupil(amplitude=amp.copy(), opd=opd.copy(), pixelscale=dx, focal_length=z)
     else:
         w = lentil.Wavefront(wl, focal_length=z) * lentil.Image(amplitude=amp.copy(), opd=opd.copy(), pixelscale=dx)
-    return w, op.phasor(amp, opd, wl)
+    fin = op.phasor(amp, opd, wl)
+    if two:
+        # "passed any planes": a second, narrower plane whose support starts at another row and column
+        amp2 = rm.generic_real(shape, seed, tag=77, lo=0.5, hi=1.0)
+        amp2[-1, :] = 0
+        amp2[:, :2] = 0
+        opd2 = rm.generic_real(shape, seed, tag=78, lo=-0.2, hi=0.2) * wl
+        cls = lentil.Pupil if cfg['dir'] == 'p2i' else lentil.Image
+        kw = dict(focal_length=z) if cfg['dir'] == 'p2i' else {}
+        w = w * cls(amplitude=amp2.copy(), opd=opd2.copy(), pixelscale=dx, **kw)
+        fin = fin * op.phasor(amp2, opd2, wl)
+    return w, fin
 
 
 def chk(case, acc, seed, ref=None):
